@@ -26,9 +26,10 @@
 (* Environment assumptions (each is a property of another component):           *)
 (*   - the default state sampler of the space returns states inside the bounds  *)
 (*     (C08), so base draws have inb = TRUE;                                    *)
-(*   - a point that lies in some PHS of diameter maxCost has cost < maxCost     *)
-(*     (isInPhs and heuristicSolnCost evaluate the same getPathLength; judged   *)
-(*     on recorded samples by InformedContract);                                *)
+(*   - a point drawn from PHS i lies strictly inside PHS i (k >= 1; dropped     *)
+(*     with Rounding = TRUE) and a point that lies in some PHS of diameter      *)
+(*     maxCost has cost < maxCost (isInPhs and heuristicSolnCost evaluate the   *)
+(*     same getPathLength; judged on recorded samples by InformedContract);     *)
 (*   - rand is in [0, 1): with k = 1 the coin always keeps.                     *)
 (* TLC enumerates every answer sequence up to numIters_; each complete run is   *)
 (* exported with the expected return flag and the index of the returned draw.   *)
@@ -44,7 +45,8 @@ CONSTANTS Kinds,       \* subset of {"direct", "rejection", "ordered"}
           KSet,        \* numbers of start/goal pairs of the direct sampler
           BSet,        \* batch sizes of the ordered sampler
           Costs,       \* 1..C: cost levels of the ordered sampler's samples
-          MaxCalls     \* calls per behaviour of the ordered sampler
+          MaxCalls,    \* calls per behaviour of the ordered sampler
+          Rounding     \* TRUE: a point drawn from a PHS may land strictly inside none (rounding)
 
 VARIABLES
     \* configuration, fixed per behaviour
@@ -160,21 +162,21 @@ PTest ==
     /\ pc' = IF ~found /\ it < N THEN "p_draw" ELSE "h_ret"
     /\ UNCHANGED <<cfgv, alive, degen, ui, it, draws, script, cur, found, ret, ordv>>
 (* { phs = randomPhsPtr(); rng_.uniformProlateHyperspheroid(phs, v);                      *)
-(*   foundSample = keepSample(v);   [numIn = numberOfPhsInclusions(v); keep = numIn > 0;  *)
-(*                                   size > 1: keep = keep && rand <= 1/numIn]             *)
+(*   foundSample = keepSample(v);   [size > 1: rand <= 1/numberOfPhsInclusions(v)]        *)
 (*   if (foundSample) { createFullState(statePtr, v); foundSample = satisfiesBounds; }    *)
 (*   ++iters; }                                                                           *)
-(* k = 0: rounding of the transform put the drawn point on or outside every surface (the   *)
-(* only possibility for the degenerate set, a line segment with nothing strictly inside)   *)
+(* k = 0 (the drawn point is strictly inside no PHS) is what the degenerate set always     *)
+(* gives (a line segment), and what rounding of the transform can give otherwise           *)
+(* (Rounding = TRUE).  keepSample does not look at k for a single PHS and computes         *)
+(* rand <= 1.0 / 0 = infinity for several: the draw is kept.                               *)
 PDraw(o) ==
     /\ pc = "p_draw"
-    /\ Step(IF o.k = 0 THEN "PDrawInNoPhs" ELSE IF ~o.keep THEN "PDrawCoinRejects"
-            ELSE IF o.inb THEN "PDrawKept" ELSE "PDrawOutOfBounds")
-    /\ o.k \in 0..Len(alive) /\ (degen => o.k = 0)
-    /\ o.k = 0 => ~o.keep                                       \* keep = numIn > 0
-    /\ (o.k = 1 \/ (Len(alive) = 1 /\ o.k > 0)) => o.keep       \* size 1: no coin; k = 1: rand <= 1.0
-    /\ o.keep => o.cls # "atmax"                                \* in some PHS of diameter maxCost
-    /\ ~o.keep => ~o.inb /\ o.cls = (IF o.k = 0 THEN "atmax" ELSE "inside")   \* not looked at: canonical
+    /\ Step(IF ~o.keep THEN "PDrawCoinRejects" ELSE IF ~o.inb THEN "PDrawOutOfBounds"
+            ELSE IF o.k = 0 THEN "PDrawKeptInNoPhs" ELSE "PDrawKept")
+    /\ o.k \in (IF degen THEN {0} ELSE IF Rounding THEN 0..Len(alive) ELSE 1..Len(alive))
+    /\ (Len(alive) = 1 \/ o.k <= 1) => o.keep                   \* size 1: no coin; k <= 1: rand <= 1.0 (inf)
+    /\ o.keep => (o.cls = "atmax" <=> o.k = 0)                  \* in some PHS of diameter maxCost, or in none
+    /\ ~o.keep => ~o.inb /\ o.cls = "inside"                    \* not looked at: one canonical value
     /\ Ask(o)
     /\ cur' = IF o.keep THEN Q ELSE cur                          \* createFullState only for kept draws
     /\ found' = (o.keep /\ o.inb) /\ it' = it + 1 /\ draws' = draws + 1 /\ pc' = "p_test"
@@ -274,15 +276,19 @@ Spec == Init /\ [][Next]_vars
 (* ===================================== properties ===================================== *)
 Finished == pc = "done"
 PosDraws == N >= 1
-(* the property's first sentence on the model *)
+(* the property's first sentence on the model.  For a bound at or below every focal distance  *)
+(* (degen, outside the property's quantifier) the direct sampler returns points of the segment *)
+(* between the foci, whose cost equals the focal distance: planners rely on the call           *)
+(* succeeding there (BIT*, AIT*, EIT* allocate the sampler with UINT_MAX attempts).             *)
+(* With Rounding = TRUE this invariant is VIOLATED (known finding sample:direct:               *)
+(* SuccessBelowBound): the check runs that configuration to show the counterexample.           *)
 SuccessSound ==
     Finished /\ ret => /\ cur \in 1..Len(script)
                        /\ script[cur].inb
-                       /\ script[cur].cls # "atmax"
+                       /\ ~degen => script[cur].cls # "atmax"
                        /\ ov = "minmax" => script[cur].cls # "below"
-(* a bound at or below every focal distance (outside the property's quantifier): the informed  *)
-(* set is empty and no call succeeds                                                          *)
-DegenerateNeverSucceeds == Finished /\ degen => ~ret
+DegenerateReturnsBoundaryPoints == Finished /\ ret /\ degen => script[cur].cls = "atmax"
+(* every call ends, whatever the informed set: within numIters_ draws (Bounded below)          *)
 (* attempts never exceed numIters_; the counter may overshoot by the outer ++i only          *)
 Bounded == IsLoop => draws <= N /\ draws = Len(script) /\ it <= N + 1 /\ draws <= it
 (* false only after the counter reached numIters_.  With [min, max] the counter is moved by  *)
@@ -296,9 +302,9 @@ FalseOnlyExhausted ==
 Usable(o) == o.keep /\ o.inb /\ (o.cls = "inside" \/ (o.cls = "below" /\ ov = "max")) /\
              (kind = "direct" /\ finite /\ big => o.k > 0)
 FirstUsableReturned ==
-    Finished => /\ ret => cur = Len(script) /\ Usable(script[cur])
-                /\ \A j \in 1..Len(script) - 1 : ~Usable(script[j])
-                /\ ~ret => \A j \in 1..Len(script) : ~Usable(script[j])
+    Finished /\ ~degen => /\ ret => cur = Len(script) /\ Usable(script[cur])
+                          /\ \A j \in 1..Len(script) - 1 : ~Usable(script[j])
+                          /\ ~ret => \A j \in 1..Len(script) : ~Usable(script[j])
 (* pruning: what is left are exactly the PHSs that can still improve, in order; if none can, *)
 (* the last one is kept as a degenerate (measure 0) set                                      *)
 Improvable == SelectSeq([i \in 1..K0 |-> i], LAMBDA i : can[i])
